@@ -53,6 +53,8 @@ def run(ctx):
         if r["counters"].get("tlc_behaviours_replayed", 0) == 0:
             raise ToolError("no behaviours were exported by TLC")
         os.remove(s["out"]) if ctx.thorough else None
+    # 6.4 on the wire of real HTTP/3 and HTTP/2 sessions: records whole or not at all under the client's flow control
+    h3_mux_job(ctx)
     s, r = reader_job(ctx, "udp")
     states += s["distinct"]
     trans += s["states"]
